@@ -1,0 +1,19 @@
+// SPDX-FileCopyrightText: 2026 The Pion community <https://pion.ly>
+// SPDX-License-Identifier: MIT
+
+//go:build verif
+
+package flight
+
+// VerifItems returns a copy of the cached handshake message descriptors (build tag verif).
+func (h *Cache) VerifItems() []HandshakeCacheItem {
+	h.mu.Lock()
+	defer h.mu.Unlock()
+
+	out := make([]HandshakeCacheItem, 0, len(h.cache))
+	for _, item := range h.cache {
+		out = append(out, *item)
+	}
+
+	return out
+}
